@@ -888,3 +888,29 @@ _ADD9 = {
 for _pid, _items in _ADD9.items():
     for _field, _txt in _items:
         CLAIMED[_pid][_field] += " " + _txt
+
+_ADD10 = {
+    "C06": [("text", "The channel DBs of the release-rule stage are opened with seeded option modifiers "
+                     "(store-final-htlc-resolutions, no-rev-log-amt-data, tombstones, test clock; all 16 combinations).")],
+    "C02": [("text", "Channel DBs are opened with seeded option modifiers (store-final-htlc-resolutions, "
+                     "no-rev-log-amt-data, tombstones, test clock).")],
+    "C11": [("text", "Handshake against an independent oracle: a pure-python BOLT-8 reference (secp256k1 ECDH, HKDF, "
+                     "ChaCha20-Poly1305 nonce encoding; self-tested on the BOLT-8 vectors every run) recomputes acts, "
+                     "(h, ck, temp key) after every step, final keys and first frames from the four private keys, with each "
+                     "side's static key served by a different SingleKeyECDH implementation (PrivKeyECDH / PubKeyECDH / "
+                     "harness ECDH) and shared points key-searched to start with a zero byte."),
+            ("note", "ECDH, HKDF and AEAD concreteness is tested against the python reference, not proved (the Coq model "
+                     "is symbolic in the crypto)."),
+            ("technique", "+ independent pure-python BOLT-8 oracle over mixed ECDH implementations")],
+    "C14": [("text", "Backend-facing catch-up layer: chainntnfs.HandleMissedBlocks / GetCommonBlockAncestorHeight / "
+                     "RewindChain driven through an in-memory ChainConn with intermediate notifications dropped over an "
+                     "enumerated family of 474 fork histories; the real catch-up must equal the canonical in-order sequence "
+                     "(disconnects to the common ancestor, connects to the new tip) fed to the model."),
+            ("note", "Catch-up gaps: backendStoresReorgs = false, a new chain shorter than the notifier's best height "
+                     "(error by design), GetClientMissedBlocks (block-epoch clients), the notifier-specific glue after "
+                     "HandleMissedBlocks (re-implemented by the driver)."),
+            ("technique", "+ catch-up = canonical sequence refinement check on enumerated fork histories")],
+}
+for _pid, _items in _ADD10.items():
+    for _field, _txt in _items:
+        CLAIMED[_pid][_field] += " " + _txt
